@@ -97,6 +97,8 @@ def gen(rng, kind, tier):
             case["offline_processes"] = 2
         if rng.random() < 0.15:
             case["stale_file"] = True
+        if rng.random() < 0.06:
+            case["no_frames"] = True  # round 7 (C14_20): the run ends before the tracker was handed its first frame
         if opts["refine"] and rng.random() < 0.4:
             case["quick_look"] = [{"tolerance": 0.3}, {"least_squares_params": {"max_nfev": 3}},
                                   {"tolerance": 0.1, "vmin": None, "vmax": None}][int(rng.integers(3))]
@@ -111,7 +113,8 @@ def gen(rng, kind, tier):
         else:
             spec = geom.rand_cyl_spec(rng, nmin=3, nmax=8)
         n = int(rng.integers(1, 9))
-        method = str(rng.choice(["structure_factor_mean", "structure_factor_maximum", "droplet_detection", "bogus"]))
+        method = str(rng.choice(["structure_factor_mean", "structure_factor_maximum", "droplet_detection", "bogus",
+                                 "structure_factor_average", "structure_factor_peak"]))
         return {"grid": spec, "fields": one_pixel_type([field_desc(rng, spec) for _ in range(n)]), "times": _times(rng, n),
                 "method": method, "source": str(rng.choice(["none", "index", "callable", "callable-on-field"]))}
     if kind == "failing":
@@ -185,6 +188,26 @@ def run_direct(case, rec):
         minimal_radius=o["minimal_radius"], refine=o["refine"],
         refine_args=dict(o["refine_args"]) if o.get("refine_args") else None, perturbation_modes=o["modes"])
     label = f"grid={geom.grid_label(spec)}{spec['shape']} fields={[f['type'] for f in case['fields']]} times={times} opts={o} source={case['source']}"
+    if case.get("no_frames"):
+        # the file name was used before by an earlier run; the file left behind by finalize() holds what was recorded
+        # now (nothing, or the frames the tracker was created with)
+        old = droplets.EmulsionTimeCourse([droplets.Emulsion([droplets.SphericalDroplet(np.ones(grid.dim), 0.5)])] * 3,
+                                          times=[100.0, 101.0, 102.0])
+        common.monitored(rec, "earlier-file", old.to_file, path)
+        fin = common.monitored(rec, "finalize", tracker.finalize)
+        if rec.check(fin.ok, "no-exception", f"finalize raised {common.exc_text(fin.exc) if fin.exc else ''} without any frame; {label}"):
+            rd = common.monitored(rec, "from_file", droplets.EmulsionTimeCourse.from_file, path, progress=False)
+            if rec.check(rd.ok, "no-exception", f"reading the tracker file raised {rd.exc!r} (no frame recorded); {label}"):
+                rec.check(snap(rd.result) == snap(tracker.data), "file-roundtrip",
+                          f"no frame was recorded, but the file left by finalize() holds times {list(rd.result.times)} "
+                          f"(recorded: {list(tracker.data.times)}); {label}")
+        try:
+            os.remove(path)
+        except OSError:
+            pass
+        rec.count("trackers_finalized_without_a_frame")
+        rec.evaluated(nontrivial=True)
+        return
     log: list = []
     ok = True
     with monitors.wrap_attr(ia, "locate_droplets", monitors.recording(log, "locate_droplets"),
@@ -291,8 +314,19 @@ def run_lengthscale(case, rec):
     scratch = Path(os.environ.get("VERIF_SCRATCH") or "/tmp")
     path = str(scratch / f"c14_{os.getpid()}.json")
     src_arg = _wrap_source(fields[0], case["source"])[1]
-    tracker = droplets.LengthScaleTracker(1, filename=path, method=case["method"], source=src_arg)
     label = f"grid={geom.grid_label(spec)}{spec['shape']} fields={[f['type'] for f in case['fields']]} method={case['method']}"
+    # round 7 (C14_19): every method name that the offline analysis accepts is a valid request to the tracker
+    mk = common.monitored(rec, "LengthScaleTracker", droplets.LengthScaleTracker, 1, filename=path, method=case["method"], source=src_arg)
+    if not mk.ok and case["method"] == "bogus":
+        # a method name the analysis does not know either: refusing it at once is as good as recording NaN (not judged)
+        rec.count("unknown_method_refused_by_the_constructor")
+        rec.evaluated(nontrivial=False)
+        return
+    if not rec.check(mk.ok, "no-exception", f"LengthScaleTracker(method={case['method']!r}) raised "
+                     f"{common.exc_text(mk.exc) if mk.exc else ''} although get_length_scale accepts this method; {label}"):
+        rec.evaluated(nontrivial=True)
+        return
+    tracker = mk.result
     expect = []
     for f, fed, t in zip(fields, feeds, times):
         try:
